@@ -29,7 +29,19 @@ structure SConn where
   st : ReqSt × Bytes          -- Requestant + the connection's receive buffer
   alive : Bool := true        -- still in the table (not closed by the server)
   cutoff : Bool := false      -- the far side closed
+  txq : Nat := 0              -- bytes of responses still queued in ix.txbs
+  cap : Option Nat := none    -- bytes the socket takes per service pass (none: everything)
+  accounted : Nat := 0        -- outcomes of `st.1.done` whose response has been queued
 deriving Repr, DecidableEq
+
+/-- serviceReps + serviceSendsAllIx: the responses of the requests that parsed since the last pass are queued (`app m` is the
+size of the response to m), then the socket takes what its capacity allows -/
+def SConn.flush (app : ReqMsg → Option Nat) (c : SConn) : SConn :=
+  let fresh := (c.st.1.done.drop c.accounted).foldl (fun n o => match o with
+    | .ok m => n + (app m).getD 0
+    | .err _ => n) 0
+  let q := c.txq + fresh
+  { c with txq := q - min (c.cap.getD q) q, accounted := c.st.1.done.length }
 
 /-- answers produced: one per request that parsed (the WSGI application / the steward is called once per parsed request) -/
 def SConn.answers (c : SConn) : Nat := (c.st.1.done.filter (fun o => match o with | .ok _ => true | _ => false)).length
@@ -41,61 +53,63 @@ def SConn.arrive (c : SConn) : Arrival → SConn
   | .closed => { c with cutoff := true }
 
 /-- serviceReqs / serviceReps (serviceStewards) on one connection after the parse.
-`handlers`: classes caught around `requestant.parse()` in the loop; `canRespond`: whether the responder can answer the
-request (BareServer's steward decodes the body and splits the url again — its failure closes the connection, a parameter);
+`handlers`: classes caught around `requestant.parse()` in the loop; `app m`: `none` when the responder cannot answer the
+request (BareServer's steward decodes the body and splits the url again; a WSGI application may raise when called — the
+connection is closed), `some n` = it answers with n bytes (a parameter);
 `.error cls` = the exception leaves service() -/
-def SConn.settle (handlers : List String) (canRespond : ReqMsg → Bool) (c1 : SConn) : Except String SConn :=
+def SConn.settle (handlers : List String) (app : ReqMsg → Option Nat) (c0 : SConn) : Except String SConn :=
+  let c1 := c0.flush app
   match c1.st.1.phase with
   | .escaped cls =>
     if catches handlers cls then .ok { c1 with alive := false }   -- except clause of the loop: closeConnection
     else .error cls                                               -- leaves service()
-  | .failed => .ok { c1 with alive := false }                     -- errored request: closeConnection
-  | .halted => .ok { c1 with alive := false }                     -- non persistent request answered, then closed
+  | .failed => .ok { c1 with alive := false }                     -- errored request: closeConnection (queued bytes dropped)
+  | .halted => .ok { c1 with alive := c1.txq != 0 }               -- non persistent: closed once ix.txbs has drained
   | _ =>
     -- a responder that cannot answer the last parsed request closes the connection
     match c1.st.1.done.getLast? with
-    | some (.ok m) => if canRespond m then .ok c1 else .ok { c1 with alive := false }
+    | some (.ok m) => if (app m).isSome then .ok c1 else .ok { c1 with alive := false }
     | _ => .ok c1
 
 /-- one connection in one cycle of Server.service / BareServer.service -/
-def serverConnStep (handlers : List String) (canRespond : ReqMsg → Bool) (c : SConn) (a : Arrival) : Except String SConn :=
+def serverConnStep (handlers : List String) (app : ReqMsg → Option Nat) (c : SConn) (a : Arrival) : Except String SConn :=
   if !c.alive then .ok c
   else if c.cutoff then .ok { c with alive := false }              -- serviceConnects: ix.cutoff -> closeConnection
-  else (c.arrive a).settle handlers canRespond
+  else (c.arrive a).settle handlers app
 
 /-- a table entry: the connection and what the kernel will deliver on it, cycle by cycle -/
 abbrev Entry := SConn × List Arrival
 
 /-- one service() call over the table (dict order = list order): every connection gets this cycle's arrival; an exception
 that leaves a connection's step leaves service() and the connections after it are not served -/
-def serverCycle (handlers : List String) (canRespond : ReqMsg → Bool) : List Entry → Except String (List Entry)
+def serverCycle (handlers : List String) (app : ReqMsg → Option Nat) : List Entry → Except String (List Entry)
   | [] => .ok []
   | (c, col) :: rest =>
-    match serverConnStep handlers canRespond c (col.headD .nothing) with
+    match serverConnStep handlers app c (col.headD .nothing) with
     | .error e => .error e
     | .ok c' =>
-      match serverCycle handlers canRespond rest with
+      match serverCycle handlers app rest with
       | .error e => .error e
       | .ok rest' => .ok ((c', col.tail) :: rest')
 
 /-- n service() calls -/
-def serverRun (handlers : List String) (canRespond : ReqMsg → Bool) : Nat → List Entry → Except String (List Entry)
+def serverRun (handlers : List String) (app : ReqMsg → Option Nat) : Nat → List Entry → Except String (List Entry)
   | 0, t => .ok t
   | n + 1, t =>
-    match serverCycle handlers canRespond t with
+    match serverCycle handlers app t with
     | .error e => .error e
-    | .ok t' => serverRun handlers canRespond n t'
+    | .ok t' => serverRun handlers app n t'
 
 /-- a connection's step when nothing leaves it (the value of `serverConnStep` when it is `.ok`) -/
-def entryStep (handlers : List String) (canRespond : ReqMsg → Bool) (p : Entry) : Entry :=
-  match serverConnStep handlers canRespond p.1 (p.2.headD .nothing) with
+def entryStep (handlers : List String) (app : ReqMsg → Option Nat) (p : Entry) : Entry :=
+  match serverConnStep handlers app p.1 (p.2.headD .nothing) with
   | .ok c' => (c', p.2.tail)
   | .error _ => (p.1, p.2.tail)
 
 /-- the same connection served alone for n cycles -/
-def entryRun (handlers : List String) (canRespond : ReqMsg → Bool) : Nat → Entry → Entry
+def entryRun (handlers : List String) (app : ReqMsg → Option Nat) : Nat → Entry → Entry
   | 0, p => p
-  | n + 1, p => entryRun handlers canRespond n (entryStep handlers canRespond p)
+  | n + 1, p => entryRun handlers app n (entryStep handlers app p)
 
 def wsgiHandlers : List String := handlersOf "Server.serviceReqs" "parse"
 def bareHandlers : List String := handlersOf "BareServer.serviceStewards" "parse"
